@@ -70,3 +70,20 @@ Section STATUS.
     | None => assoc "default" responses
     end.
 End STATUS.
+
+(* decodeBody (req_resp_decoder.go l.1238): the decoder is chosen by the Content-Type text cut at
+   the first ';' (no trimming, no case folding) among the registered decoders.  JSON text parsing
+   itself is an oracle: [parsed] is what encoding/json yields for the body (None: syntax error). *)
+Inductive dkind := DJson | DPlain | DOtherRegistered | DUnsupported.
+Definition json_types : list string :=
+  ["application/json"; "application/json-patch+json"; "application/ld+json"; "application/hal+json";
+   "application/vnd.api+json"; "application/problem+json"].
+Definition other_types : list string :=
+  ["application/octet-stream"; "application/x-www-form-urlencoded"; "application/x-yaml"; "application/yaml";
+   "multipart/form-data"; "text/csv"].
+Definition decoder_kind (ct : string) : dkind :=
+  let mt := before semicolon ct in
+  if str_in mt json_types then DJson
+  else if String.eqb mt "text/plain" then DPlain
+  else if str_in mt other_types then DOtherRegistered
+  else DUnsupported.
